@@ -4,6 +4,7 @@ evidence file, exit codes (0 held / 1 violation / 2 machinery failure)."""
 from __future__ import annotations
 
 import argparse
+import glob
 import json
 import os
 import sys
@@ -82,9 +83,12 @@ class Check:
         self.uncovered: list[str] = []
         self.extra: dict = {}
         self.rule = ''
-        with open(FINDINGS_FILE) as f:
-            doc = json.load(f)
-        self.findings = [x for x in doc.get('findings', []) if x['property'] == property_id]
+        docs = [FINDINGS_FILE] + sorted(glob.glob(os.path.join(VERIF, 'known_findings.d', '*.json')))
+        self.findings = []
+        for path in docs:
+            with open(path) as f:
+                doc = json.load(f)
+            self.findings += [x for x in doc.get('findings', []) if x['property'] == property_id]
         os.makedirs(REPLAY, exist_ok=True)
 
     # ---------------------------------------------------------------- TLC bookkeeping
